@@ -171,8 +171,27 @@ class C04:
             "annotate.annotate_citations": {"unbalanced_tags"},
             "clean.clean_text": {"steps"},
             "models.Document.__post_init__": {"self"},
+            # the property quantifies over the plain text; markup input and cleaning steps are configuration outside it
+            "find.get_citations": {"markup_text", "clean_steps", "tokenizer", "remove_ambiguous"},
         }
         cfg = set(table.get(q, set()))
+        # locals computed from configuration only are configuration (`steps = list(clean_steps)`)
+        import builtins as _b
+
+        for _ in range(4):
+            grew = False
+            for s_ in stmts_local(fn.body):
+                if isinstance(s_, (ast.Assign, ast.AnnAssign)) and getattr(s_, "value", None) is not None:
+                    tg = assigned_names(s_)
+                    if tg and not tg <= cfg and all(n_ in cfg or hasattr(_b, n_) for n_ in names_in(s_.value)):
+                        others = [x for x in stmts_local(fn.body) if x is not s_ and isinstance(x, (ast.Assign, ast.AnnAssign, ast.AugAssign, ast.For)) and tg & assigned_names(x)
+                                  and not (isinstance(x, ast.AnnAssign) and x.value is None)
+                                  and not (getattr(x, "value", None) is not None and all(n_ in cfg or hasattr(_b, n_) for n_ in names_in(x.value)))]
+                        if not others and "self" not in cfg:
+                            cfg |= tg
+                            grew = True
+            if not grew:
+                break
         # a loop variable ranging over a configuration parameter is configuration too
         for n in walk_local(fn):
             if isinstance(n, ast.For) and isinstance(n.target, ast.Name) and isinstance(n.iter, ast.Name) and n.iter.id in cfg:
@@ -573,7 +592,7 @@ class C04:
                     conj = [norm(v) for v in (w.test.values if isinstance(w.test, ast.BoolOp) and isinstance(w.test.op, ast.And) else [w.test])]
                     up = isinstance(moved[idx].op, ast.Add)
                     bound = any(c in (f"{idx} < len({base})", f"len({base}) > {idx}") for c in conj) if up else any(
-                        c in (f"{idx} >= 0", f"{idx} > 0", f"0 <= {idx}", f"{idx} > -1") for c in conj)
+                        c in (f"{idx} >= 0", f"{idx} > 0", f"0 <= {idx}", f"{idx} > -1", f"0 < {idx}", f"-1 < {idx}") for c in conj)
                     ctx.ob("T6", f"{q}/while:{base}[{idx}]", bound,
                            f"`while ..{base}[{idx}]..` {'increments' if up else 'decrements'} `{idx}` in its body; the condition must bound it "
                            f"({'`' + idx + ' < len(' + base + ')`' if up else '`' + idx + ' >= 0`'}) or the subscript runs off the sequence (IndexError at the end of the text)",
